@@ -1,6 +1,7 @@
 import DarkluaModel.C13.Model
 import DarkluaModel.C13.Spec
 import DarkluaModel.C13.Lemmas
+import DarkluaModel.C13.LemmasNum
 /-!
 C13 — String and number literals survive generation exactly: the property theorems.
 
@@ -32,7 +33,7 @@ theorem f14Witness_straddles : straddles f14Witness = true := by
 one byte early; `=]`-junk follows): F14 is exactly this region. -/
 theorem string_straddle_breaks (v : List UInt8) (h : straddles v = true) :
     decodeLuau (writeString v) = none :=
-  decodeLiteral_straddle .luau v h
+  decodeLiteral_straddle .luau true v h
 
 example : decodeLuau (writeString f14Witness) = none :=
   string_straddle_breaks _ f14Witness_straddles
@@ -49,7 +50,7 @@ every byte string survives: whatever quoting form `write_string` picks, the Luau
 reads the text as exactly one string token denoting `v`. -/
 theorem string_roundtrip_partial (v : List UInt8) (H : straddles v = false) :
     decodeLuau (writeString v) = some v :=
-  decodeLiteral_writeString .luau v (Or.inl rfl) H (fun h => absurd h (by decide))
+  decodeLiteral_writeString .luau true v (Or.inl rfl) H (fun _ h => absurd h (by decide))
 
 /-- `H₁₃` is exact: the literal survives iff the value is outside the straddling region. -/
 theorem string_roundtrip_iff (v : List UInt8) :
@@ -79,7 +80,7 @@ example : straddles [27, 48, 39, 34, 92, 0xc3, 0xa9] = false := by
 with every escape (`\a\b\f\n\r\t\v\\`, quote, `\ddd` padded to three digits exactly when a
 digit follows, `\u{…}`), both quote choices. -/
 theorem quoted_roundtrip (v : List UInt8) : decodeLuau (writeQuoted v) = some v :=
-  decodeLiteral_writeQuoted .luau v (Or.inl rfl)
+  decodeLiteral_writeQuoted .luau true v (Or.inl rfl)
 
 example : decodeLuau (writeQuoted [1, 48, 39, 34, 10, 0xff]) = some [1, 48, 39, 34, 10, 0xff] :=
   quoted_roundtrip _
@@ -87,7 +88,7 @@ example : decodeLuau (writeQuoted [1, 48, 39, 34, 10, 0xff]) = some [1, 48, 39, 
 /-- The quoted form is also right by Lua 5.1's rules unless a `\u{…}` escape is needed. -/
 theorem quoted_roundtrip_lua51 (v : List UInt8) (H : hasUnicodeEscape v = false) :
     decodeLua51 (writeQuoted v) = some v :=
-  decodeLiteral_writeQuoted .lua51 v (Or.inr H)
+  decodeLiteral_writeQuoted .lua51 true v (Or.inr H)
 
 /-- Lua 5.1 reads the literal back as `v` when no `\u{…}` is emitted, the value is outside
 the F14 region, and the level-0 long-bracket form does not contain `[[` (which stock
@@ -96,10 +97,17 @@ theorem lua51_roundtrip (v : List UInt8) (H : lua51Safe v = true) :
     decodeLua51 (writeString v) = some v := by
   simp only [lua51Safe, Bool.and_eq_true, Bool.not_eq_true'] at H
   obtain ⟨⟨hu, hs⟩, hn⟩ := H
-  refine decodeLiteral_writeString .lua51 v (Or.inr hu) hs ?_
-  intro _ huse hlvl
+  refine decodeLiteral_writeString .lua51 true v (Or.inr hu) hs ?_
+  intro _ _ huse hlvl
   rw [hasNestedOpen_eq]
   simpa [nestedOpen51, huse, hlvl] using hn
+
+/-- By the grammar of the Lua 5.1 manual alone (a build without `LUA_COMPAT_LSTR`) the `[[`
+restriction disappears: only `\u{…}` and the F14 region remain excluded. So F14b is a defect
+with respect to the stock build (and `LUA_COMPAT_LSTR = 2`), not with respect to §2.1. -/
+theorem lua51_manual_roundtrip (v : List UInt8) (hu : hasUnicodeEscape v = false)
+    (hs : straddles v = false) : decodeLua51Manual (writeString v) = some v :=
+  decodeLiteral_writeString .lua51 false v (Or.inr hu) hs (fun h => absurd h (by decide))
 
 example : lua51Safe [27, 48, 39, 34, 92, 0xff] = true := by
   have h1 : wantsLongBracket [27, 48, 39, 34, 92, 0xff] = false := by decide
@@ -238,28 +246,207 @@ theorem binary_literal_roundtrip {F : Type} (ops : NumOps F) (n : Nat)
 example : luauNumber? (writeNumber floatOps (.hex 0xdeadbeef none true)) = some (.int 0xdeadbeef) :=
   hex_literal_roundtrip _ _ (by decide) _
 
-/-- `number_parse_spec`, the digit part: on a run of digits valid in the radix the model
-parser's `u64::from_str_radix` (optional `+`, digit folding, overflow check) is the reference
-lexer's `strtoull`: same acceptance, same value, same overflow rejection — for hexadecimal and
-binary. (The decimal value is in both the correctly rounded reading of the text without
-underscores, `ops.parse (filterUnderscore text)`; that the `0x`/`0b` prefix detection, the
-underscore positions and the decimal grammar agree between model and reference for every token
-is covered by the run-time comparison only — see meta/C13.json.) -/
+/-- the digit part: on a run of digits valid in the radix the model parser's
+`u64::from_str_radix` is the reference lexer's `strtoull` (same acceptance, value, overflow) -/
 theorem number_parse_spec_digits (ds : List UInt8) :
     (ds.all (fun c => (hexVal? c).any (· < 16)) = true →
       parseUnsigned 16 18446744073709551615 ds = strtoullAll 16 ds) ∧
     (ds.all (fun c => (hexVal? c).any (· < 2)) = true →
       parseUnsigned 2 18446744073709551615 ds = strtoullAll 2 ds) :=
-  ⟨parseUnsigned_eq_strtoull 16 toDigit_16 ds, parseUnsigned_eq_strtoull 2 toDigit_2 ds⟩
+  number_parse_spec_digits_aux ds
 
 example : ([49, 98, 70, 50, 65] : List UInt8).all (fun c => (hexVal? c).any (· < 16)) = true := by decide
+
+/-- the value a parsed number node carries, against the reference description of the literal -/
+def Denotes {F : Type} (ops : NumOps F) : NumLit F → NumDesc → Prop
+  | .hex n none _, .int m => n = m
+  | .binary n _, .int m => n = m
+  | .decimal x _, .dec d e => x = ops.ofDecimal d e
+  | _, _ => False
+
+/-- `number_parse_spec`, acceptance and value. For EVERY text the reference Luau lexer
+(`Spec.luauNumber?`: one number token; underscores anywhere the lexer allows; `0x`/`0X`,
+`0b`/`0B`, decimal with fraction and exponent) reads as a literal:
+* hexadecimal / binary: the model of `FromStr` accepts it and yields that integer;
+* decimal: unless the exponent text overflows `i64` (decidable `expOverflows`, see
+  `number_parse_complete_full_false`) the model accepts it, and the double it stores is the
+  correctly rounded `digits × 10^exp` the reference describes (relative to `ParseLaws`: Rust's
+  `parse::<f64>` reads the reference decimal grammar with correct rounding). -/
+theorem number_parse_spec {F : Type} (ops : NumOps F) (laws : ParseLaws ops) (text : List UInt8)
+    (desc : NumDesc) (h : luauNumber? text = some desc)
+    (H : expOverflows text = false) :
+    ∃ lit, parseNumber ops text = .ok lit ∧ Denotes ops lit desc := by
+  cases desc with
+  | int n =>
+    obtain ⟨up, hp | hp⟩ := parseNumber_int ops h
+    · exact ⟨_, hp, rfl⟩
+    · exact ⟨_, hp, rfl⟩
+  | dec d e =>
+    obtain ⟨ex, hp⟩ := parseNumber_dec ops laws h H
+    exact ⟨_, hp, rfl⟩
+
+/-- Soundness without any side condition: whenever the model parser accepts a text the
+reference lexer reads as a literal, the node carries exactly the reference value. -/
+theorem number_parse_sound {F : Type} (ops : NumOps F) (laws : ParseLaws ops) (text : List UInt8)
+    (desc : NumDesc) (lit : NumLit F) (h : luauNumber? text = some desc)
+    (hp : parseNumber ops text = .ok lit) : Denotes ops lit desc := by
+  cases desc with
+  | int n =>
+    obtain ⟨up, hp' | hp'⟩ := parseNumber_int ops h
+    · rw [hp'] at hp; cases hp; rfl
+    · rw [hp'] at hp; cases hp; rfl
+  | dec d e =>
+    obtain ⟨_, hpre, hdec⟩ := luauNumber_dec h
+    have hp2 : parseDecBranch ops text = .ok lit := by
+      unfold parseNumber at hp; rw [hpre] at hp; exact hp
+    obtain ⟨x, ex, rfl, hx⟩ := parseDecBranch_ok ops hp2
+    rw [laws.parse_decimal _ _ _ hdec] at hx
+    cases hx
+    rfl
+
+/-- completeness at full strength: every literal of the grammar is accepted -/
+def number_parse_complete_full : Prop :=
+  ∀ text : List UInt8, (luauNumber? text).isSome = true →
+    ∃ lit, parseNumber floatOps text = .ok lit
+
+/-- `1e99999999999999999999` (Luau: `inf`) -/
+def expOverflowWitness : List UInt8 := [49, 101] ++ List.replicate 20 57
+
+/-- The full completeness statement is false of the code: `from_str` parses the exponent text
+as an `i64` and gives up when it overflows, although the literal is valid Luau (robustness
+observation; no accepted literal gets a wrong value — `number_parse_sound`). -/
+theorem number_parse_complete_full_false : ¬ number_parse_complete_full := by
+  intro h
+  have h1 : (luauNumber? expOverflowWitness).isSome = true := by decide +kernel
+  obtain ⟨lit, hl⟩ := h expOverflowWitness h1
+  have h2 : (match parseNumber floatOps expOverflowWitness with
+      | .error _ => true | .ok _ => false) = true := by decide +kernel
+  rw [hl] at h2
+  exact absurd h2 (by simp)
+
+example : expOverflows expOverflowWitness = true := by decide +kernel
+
+/-- Rejected spellings are rejected by both: a text shaped like a number token that the
+reference lexer does not read as a literal (`1e`, `1e+`, `1.2.3`, `1e5e6`, `0x`, `0b2`,
+`0xg`, `12abc`, 2⁶⁴ and above in hex/binary …) is refused by the model parser — except the
+hexadecimal floats `0x…p…` (decidable `hexFloatShape`), which `from_str` accepts as Lua 5.2
+does and Luau does not. Relative to `RejectLaws` (what Rust's `parse::<f64>` refuses). -/
+theorem number_parse_reject {F : Type} (ops : NumOps F) (laws : RejectLaws ops) (text : List UInt8)
+    (htok : isNumberToken text = true) (h : luauNumber? text = none)
+    (H : hexFloatShape text = false) :
+    ∃ err, parseNumber ops text = .error err :=
+  parseNumber_reject ops laws htok h H
+
+-- non-vacuity: `10_0.12_e_8` is a literal of the grammar, no overflow
+example : luauNumber? [49, 48, 95, 48, 46, 49, 50, 95, 101, 95, 56] = some (.dec 10012 6) ∧
+    expOverflows [49, 48, 95, 48, 46, 49, 50, 95, 101, 95, 56] = false := by decide +kernel
+-- non-vacuity: `0_x_12` is a hexadecimal literal
+example : luauNumber? [48, 95, 120, 95, 49, 50] = some (.int 18) := by decide +kernel
+-- non-vacuity: `1e+` is token-shaped and refused by the reference, not a hex float
+example : isNumberToken [49, 101, 43] = true ∧ luauNumber? [49, 101, 43] = none ∧
+    hexFloatShape [49, 101, 43] = false := by decide +kernel
+-- the excluded region is real: `0x12p4` is accepted by the model parser, refused by Luau
+example : hexFloatShape [48, 120, 49, 50, 112, 52] = true ∧
+    luauNumber? [48, 120, 49, 50, 112, 52] = none ∧
+    (match parseNumber floatOps [48, 120, 49, 50, 112, 52] with
+      | .ok (.hex 18 (some (4, false)) false) => true | _ => false) = true :=
+  ⟨by decide +kernel, by decide +kernel, by decide +kernel⟩
 
 -- non-vacuity of `NumLaws`: a (degenerate) structure satisfying the laws exists, with finite values
 example : ∃ (ops : NumOps Nat), NumLaws ops ∧ ops.isNaN 3 = false ∧ ops.isInf 3 = false :=
   ⟨{ isNaN := fun _ => false, isInf := fun _ => false, isZero := fun n => n == 0,
      signNeg := fun _ => false, fractIsZero := fun _ => true, divPow10 := fun x _ => x,
      fmt := fun n => List.replicate n 49, fmtExp := fun _ n => List.replicate n 49,
-     parse := fun s => some s.length, eq := fun a b => a == b },
+     parse := fun s => some s.length, ofDecimal := fun d _ => d, eq := fun a b => a == b },
    ⟨by intro x _ _; simp, by intro _ x _ _; simp, by intro y x h _; simpa using h⟩, rfl, rfl⟩
+
+/-! ## `From<f64> for Expression` -/
+
+/-- the value of a tree `Expression::from(f64)` builds: a decimal node denotes the double it
+carries (what `write_number` writes for it reads back as that double: `number_roundtrip`, for
+every recorded exponent); `neg`/`div` are Lua's unary minus and `/` on doubles -/
+def denote {F : Type} (neg : F → F) (div : F → F → F) : NumExpr F → Option F
+  | .lit (.decimal x _) => some x
+  | .lit _ => none
+  | .neg e => (denote neg div e).map neg
+  | .div a b => match denote neg div a, denote neg div b with
+    | some x, some y => some (div x y)
+    | _, _ => none
+
+/-- IEEE facts the tree construction relies on (`neg`, `div` are Lua's operators) -/
+structure FromLaws {F : Type} (ops : FromOps F) (neg : F → F) (div : F → F → F) : Prop where
+  nan_div : ops.isNaN (div ops.posZero ops.posZero) = true
+  inf_pos : ∀ x, ops.isNaN x = false → ops.isInf x = true → ops.signNeg x = false →
+    div ops.one ops.posZero = x
+  inf_neg : ∀ x, ops.isNaN x = false → ops.isInf x = true → ops.signNeg x = true →
+    div (neg ops.one) ops.posZero = x
+  zero_pos : ∀ x, ops.isNaN x = false → ops.isInf x = false → ops.isZero x = true →
+    ops.signNeg x = false → ops.posZero = x
+  zero_neg : ∀ x, ops.isNaN x = false → ops.isInf x = false → ops.isZero x = true →
+    ops.signNeg x = true → ops.negZero = x
+  neg_abs : ∀ x, ops.ltZero x = true → neg (ops.abs x) = x
+
+theorem fromPositive_value {F : Type} (ops : FromOps F) (x : F) :
+    ∃ ex, fromPositive ops x = .decimal x ex := by
+  unfold fromPositive
+  split
+  · exact ⟨_, rfl⟩
+  · split
+    · exact ⟨_, rfl⟩
+    · exact ⟨_, rfl⟩
+
+/-- The tree `Expression::from(x)` builds denotes `x` itself (a NaN for a NaN), whatever the
+exponent the `log10`/`powf` computation records: the exponent only selects the spelling, and
+every spelling reads back as the carried double (`number_roundtrip`). -/
+theorem from_f64_denotes {F : Type} (ops : FromOps F) (neg : F → F) (div : F → F → F)
+    (laws : FromLaws ops neg div) (x : F) :
+    ∃ y, denote neg div (fromF64 ops x) = some y ∧
+      (if ops.isNaN x then ops.isNaN y = true else y = x) := by
+  unfold fromF64
+  cases hn : ops.isNaN x with
+  | true => exact ⟨_, rfl, by simpa using laws.nan_div⟩
+  | false =>
+    simp only [Bool.false_eq_true, if_false]
+    cases hi : ops.isInf x with
+    | true =>
+      simp only [if_true]
+      cases hs : ops.signNeg x with
+      | true => exact ⟨_, rfl, laws.inf_neg x hn hi hs⟩
+      | false => exact ⟨_, rfl, laws.inf_pos x hn hi hs⟩
+    | false =>
+      simp only [Bool.false_eq_true, if_false]
+      cases hz : ops.isZero x with
+      | true =>
+        simp only [if_true]
+        cases hs : ops.signNeg x with
+        | true => exact ⟨_, rfl, laws.zero_neg x hn hi hz hs⟩
+        | false => exact ⟨_, rfl, laws.zero_pos x hn hi hz hs⟩
+      | false =>
+        simp only [Bool.false_eq_true, if_false]
+        cases hl : ops.ltZero x with
+        | true =>
+          simp only [if_true]
+          obtain ⟨ex, he⟩ := fromPositive_value ops (ops.abs x)
+          rw [he]
+          exact ⟨_, rfl, laws.neg_abs x hl⟩
+        | false =>
+          simp only [Bool.false_eq_true, if_false]
+          obtain ⟨ex, he⟩ := fromPositive_value ops x
+          rw [he]
+          exact ⟨_, rfl, rfl⟩
+
+-- non-vacuity: the laws are satisfiable (integers with a NaN/±inf/±0 encoding)
+example : ∃ (ops : FromOps Int) (neg : Int → Int) (div : Int → Int → Int),
+    FromLaws ops neg div ∧ ops.isNaN 5 = false ∧ ops.ltZero (-5) = true :=
+  ⟨{ isNaN := fun x => x == 7777, isInf := fun _ => false, isZero := fun x => x == 0,
+     signNeg := fun _ => false, posZero := 0, negZero := 0, one := 1, ltZero := fun x => x < 0,
+     abs := fun x => x.natAbs, ltTenth := fun _ => false, gt999 := fun x => x > 999,
+     div100FractZero := fun x => x % 100 == 0, log10Floor := fun _ => 3, powf10 := fun _ => 1000,
+     div10 := fun x => x / 10, divFractNonZero := fun v p => v % p != 0 },
+   fun x => -x, fun a b => if a = 0 ∧ b = 0 then 7777 else a / b,
+   ⟨by simp, by intro x _ h; simp at h, by intro x _ h; simp at h,
+    by intro x _ _ h _; simp at h; exact h.symm, by intro x _ _ _ h; simp at h,
+    by intro x h; have hx : x < 0 := by simpa using h
+       show -((x.natAbs : Nat) : Int) = x; omega⟩, by decide, by decide⟩
 
 end DarkluaModel.C13
